@@ -437,7 +437,31 @@ def sent_ids_over_payload_sizes(ctx: Ctx) -> None:
                         break
 
 
+def undeclared_ids_seen_by_devices(ctx: Ctx) -> None:
+    """Device-side monitor over everything this worker process did (both framings, many sessions, in whatever order the workloads ran): every frame
+    a simulated device decoded carried a type number api.proto declares.  All client traffic in this check is written by the library itself, so
+    a frame under an undeclared number is a message the client sent under a type the protocol does not mark as client-originated."""
+    from vf.sim import device as _dev  # noqa: PLC0415
+
+    res = ctx.res
+    res.evaluations += 1
+    seen = list(_dev.UNDECLARED_IDS_RECEIVED)
+    res.count("S/frames-under-undeclared-ids-seen-by-devices", len(seen))
+    if seen:
+        first = seen[0]
+        res.violation("C13/client-sent-undeclared-id", f"{len(seen)} frames reached a device under type numbers api.proto does not declare; first: id {first['id']} "
+                      f"({first['framing']} framing, {first['payload_bytes']} payload bytes); ids {sorted({x['id'] for x in seen})[:8]}",
+                      {"undeclared": seen[:5], "shard": ctx.shard, "note": "process-wide monitor: replay by running the shard"})
+
+
 def shard(ctx: Ctx) -> None:
+    try:
+        _shard(ctx)
+    finally:
+        undeclared_ids_seen_by_devices(ctx)
+
+
+def _shard(ctx: Ctx) -> None:
     if ctx.shard == 0:
         # first: the structural obligations need nothing but the modules and the text (and the workloads below assume some of them)
         tables(ctx)
@@ -460,7 +484,13 @@ def shard(ctx: Ctx) -> None:
 def replay(spec: dict[str, Any]) -> int:
     ctx = Ctx("C13", 0, 1, "quick", 0)
     tables(ctx)
-    direction(ctx, "plain", (1, 10))
+    if "undeclared" in str(spec)[:4000]:
+        # the process-wide monitor: sessions of both framings in one process, in both orders
+        for fr in ("noise", "plain", "noise"):
+            direction(ctx, fr, (1, 10))
+        undeclared_ids_seen_by_devices(ctx)
+    else:
+        direction(ctx, "plain", (1, 10))
     for v in ctx.res.violations:
         print(v["key"], v["what"])
     return 1 if ctx.res.violations else 0
